@@ -593,7 +593,12 @@ func c12One(c c12Case, dir string) (res c12Res) {
 				res.Panic = fmt.Sprint(r)
 			}
 		}()
-		if c.Kind == "uni" {
+		if c.Kind == "st" {
+			// station only: the wrapper of the case is what reaches the station
+			if b, e := proto.Marshal(w); e == nil {
+				snd.msgs = append(snd.msgs, b)
+			}
+		} else if c.Kind == "uni" {
 			err = p.RegisterUnidirectional(w, pb.RegistrationSource(c.Method), clientAddr)
 		} else {
 			resp, err = p.RegisterBidirectional(w, pb.RegistrationSource(c.Method), clientAddr)
@@ -612,7 +617,7 @@ func c12One(c c12Case, dir string) (res c12Res) {
 	default:
 		res.Err = "other"
 	}
-	if err == nil && c.Kind != "uni" {
+	if err == nil && c.Kind == "bd" {
 		res.Resp = c12ViewOf(resp)
 		if resp == nil {
 			res.Err = "nilresp"
